@@ -297,12 +297,12 @@ prop(
     level="fault_enumeration",
     technique="systematic schema-fault enumeration over every JSON path + property-based hostile-input generation (rapid) + native go fuzzing in the thorough tier",
     design_ref="DESIGN.md §5 C04",
-    rule=("Every single fault (13 operators: null, number, negative, float, string, bool, object, array, empty, absent, duplicate, oversized, deep) at every "
+    rule=("Every single fault (15 operators: null, number, negative, float, string, bool, object, array, empty, absent, duplicate, oversized, deep, nulls, null_run) at every "
           "JSON path of four representative documents (hand-written SPDX 2.3 and CycloneDX 1.5 documents populating every member the parsers read, bom-1.4.json, "
           "bom-1.5.json); double faults sampled (quick) or enumerated on the hand-written documents (thorough); rapid-generated byte strings, JSON token soup, "
           "truncations, BOM prefixes, nesting to 20000 levels, 1 MB strings, tag-value look-alikes; depth-n / width-n scaling families n=8..512; thorough adds "
           "coverage-guided native fuzzing. Each input goes through detection, auto-detected parsing and every registered parser. Non-trivial/distinct = distinct (base, fault) or distinct input bytes."),
-    assumptions=["a 30 s watchdog per input <=1 MB stands for 'polynomial time' (typical parse: milliseconds)", "inputs with more than 12 entries in one CycloneDX licences array are excluded (KF-05)"],
+    assumptions=["a 60 s watchdog per call on inputs <=1 MB and <=1600 components stands for 'polynomial time' (typical parse: milliseconds; the library's grafting is quadratic)", "inputs with more than 12 entries in one CycloneDX licences array - or, when they are not one strict JSON value, more than 12 members named license / expression anywhere - are excluded (KF-05)", "a native-fuzz crasher counts only if the target fails on the saved input again in a fresh process"],
     level_text=("Fault enumeration: all single schema faults at all paths are executed (exhaustive for the listed documents and operators); each call must return "
                 "(document with metadata and node list) xor error, without panic, process death (journal + re-execution) or watchdog hit."),
     level_note="trusts the harness's JSON model/fault operators (harness/hx/jsonmodel.go); third-party decoders are part of the system under test",
@@ -542,3 +542,14 @@ _revise("C20", level_text=(
     "fault enumeration: every system-call boundary of the traced store and torn prefixes of every write (taken from the bytes the traced run really wrote); retrieve must return an error, "
     "the complete old document or the complete new document (proto.Equal), the neighbour entry must be intact, the uncrashed state must return the new document; after a further store in "
     "a crash state (which may be refused) retrieve must again return an error or one of the complete documents."))
+
+# round 4 of the false-alarm hunt / rounds 5-6 of the seeded changes
+_revise("C01", add_assumptions=["generated text is everything JSON carries without escapes (RFC 8259: also < > & U+2028 U+2029); generated purl / CPE / gitoid identifiers and checksum values are "
+                                "well-formed for their kind and algorithm (a writer may leave out a string that is none of them); documents carry a non-blank name"])
+_revise("C03", add_assumptions=["checksum values are hexadecimal digests of their algorithm's length; purls and CPE names are well-formed"])
+_revise("C10", add_assumptions=["the kind (PACKAGE / FILE) of a surviving node whose operands disagree about it must be one of the two; which one is counted, not asserted (kind is identity, not an "
+                                "attribute under the precedence rule)"])
+_revise("C14", add_assumptions=["a oneof whose set member changes counts as one differing attribute or as two (both DiffCount values are accepted)"])
+_revise("C19", add_assumptions=["an identifier whose entry file was removed behind the store's back need not be storable again; when the session's directory cannot be removed (a store may write-protect "
+                                "what it creates) the action only brings the model up to date"])
+_revise("C20", add_assumptions=["a storing process that ends after a crash state is read as a store that did not succeed: the oracle is what the following retrieve returns"])
